@@ -16,8 +16,8 @@ SHRINK_PREFIX = 1
 RULE = ("one case = (base?, route table, path). Route tables: 27 fixed tables (upstream's own test tables, one "
         "shape per segment kind / nesting / optional placement) x EVERY path over {/, a, b, e-acute} that starts "
         "with '/' up to 6 (quick) / 7 (thorough; 8 for the first eight tables) characters, plus PRNG-drawn tables (VERIF_SEED; static/param/"
-        "optional/wildcard/unit segments, tuples of arity 1-6 nested up to depth 2, nested routes to depth 3 with "
-        "up to 4 siblings, with and without base) x paths built from the table's own flat routes with parameter "
+        "optional/wildcard/unit segments, tuples of arity 1-12 nested up to depth 2, nested routes to depth 3 with "
+        "up to 12 siblings held in real tuples or in a StaticVec, with and without base) x paths built from the table's own flat routes with parameter "
         "values substituted (kind 'built') and mutations of those (trailing/double/removed slashes, appended and "
         "inserted characters, truncation) plus random short paths; a stream of strings without leading '/' is "
         "compared model-vs-code only. A case is non-trivial when some route matched; distinct = distinct case hash.")
@@ -25,8 +25,8 @@ TRUSTED = [
     "Coq 8.16.1 kernel (coqc); no axioms: every theorem of Properties_C14.v is 'Closed under the global context'",
     "extraction to OCaml with ExtrOcamlBasic only, ocamlfind ocamlopt, extract/driver.ml sexp I/O",
     "harness/router/src/c14.rs: builds real leptos_router values (StaticSegment/ParamSegment/OptionalParamSegment/"
-    "WildcardSegment/(), real tuples of arity 1-6 through a forwarding enum, NestedRoute::new(..).child(<real tuple "
-    "of 1-6 AnyNestedRoute>), RouteDefs::new/new_with_base) and calls RouteDefs::match_route, "
+    "WildcardSegment/(), real tuples of arity 1-12 through a forwarding enum, NestedRoute::new(..).child(<real tuple "
+    "of 1-12 AnyNestedRoute, or StaticVec<AnyNestedRoute>>), RouteDefs::new/new_with_base) and calls RouteDefs::match_route, "
     "MatchNestedRoutes::match_nested, generate_routes, ExpandOptionals::expand_optionals; route ids are read from "
     "RouteMatchId's Debug form and made relative to the first id of the case",
     "modelled, not verified: str::chars / split_at / trim_end_matches / strip_prefix / trim_start_matches semantics on "
@@ -39,8 +39,8 @@ ASSUMPTIONS = [
     "parameter and wildcard names are non-empty and do not start with '/'; a WildcardSegment is the last segment of "
     "its route (documented requirement of leptos_router)",
     "segment texts, names and paths are valid UTF-8",
-    "route tuples have arity <= 6 and sibling tuples arity <= 6 in the correspondence run (the tuple macros are "
-    "uniform in the arity; the model is arity-independent)",
+    "segment tuples and sibling tuples have arity <= 12 in the correspondence run (Debug/Clone for tuples stop at 12; "
+    "the tuple macros are uniform in the arity; the model is arity-independent)",
 ]
 LEVEL_TEXT = ("Coq proofs about an executable Gallina transcription of leptos_router's matcher (StaticSegment/Param/"
               "OptionalParam/Wildcard tests, the tuple macro with its include_optionals back-off, NestedRoute::"
@@ -60,8 +60,8 @@ TECHNIQUE = "Coq proof (structural induction over nested segment tuples and rout
 
 # ---------------------------------------------------------------- case construction
 # seg   : [0,s] static  [1,n] param  [2,n] optional  [3,n] wildcard  [4] unit  [5,[seg..]] tuple
-# route : [seg,0] | [seg,1,[route..]]
-# case  : [0, base?, [route..], path]
+# route : [seg,0] | [seg,1,[route..]] (children = a tuple) | [seg,2,[route..]] (children = StaticVec)
+# case  : [0, base?, [route..], path] (+ [1]: the top-level siblings are a StaticVec)
 
 
 def S(s):
@@ -87,12 +87,12 @@ def T(*a):
     return [5, list(a)]
 
 
-def R(seg, kids=None):
-    return [seg, 0] if kids is None else [seg, 1, list(kids)]
+def R(seg, kids=None, vec=False):
+    return [seg, 0] if kids is None else [seg, 2 if vec else 1, list(kids)]
 
 
-def mk(routes, path, base=None):
-    return C.norm([0, [] if base is None else [base], routes, path])
+def mk(routes, path, base=None, vec=False):
+    return C.norm([0, [] if base is None else [base], routes, path] + ([1] if vec else []))
 
 
 def txt(v):
@@ -117,14 +117,15 @@ def seg_str(s):
 def route_str(r):
     s = "Route[" + seg_str(r[0]) + "]"
     if r[1]:
-        s += "{" + "; ".join(route_str(c) for c in r[2]) + "}"
+        s += ("vec{" if r[1] == 2 else "{") + "; ".join(route_str(c) for c in r[2]) + "}"
     return s
 
 
 def describe(item):
     c = item["case"]
     base = ("base=%r " % txt(c[1][0])) if c[1] else ""
-    return "%sroutes=(%s) path=%r" % (base, "; ".join(route_str(r) for r in c[2]), txt(c[3]))
+    return "%sroutes=%s(%s) path=%r" % (base, "vec" if len(c) > 4 and c[4] == 1 else "",
+                                        "; ".join(route_str(r) for r in c[2]), txt(c[3]))
 
 
 # ---------------------------------------------------------------- structure helpers (on the case, not on any model)
@@ -462,12 +463,12 @@ def _utf8(v):
 
 
 def valid_case(item):
-    """generator preconditions (kept by the shrinker): shape of the case, arities 1..6, valid
+    """generator preconditions (kept by the shrinker): shape of the case, arities 1..12, valid
     UTF-8 everywhere, names non-empty and not starting with '/', a wildcard only as the very
     last segment of a leaf route"""
     try:
         c = item["case"]
-        if len(c) != 4 or c[0] not in (0, 1):
+        if len(c) not in (4, 5) or c[0] not in (0, 1) or (len(c) == 5 and c[4] != 1):
             return False
         base, routes, path = c[1], c[2], c[3]
         if not (base == [] or (len(base) == 1 and _utf8(base[0]))):
@@ -484,7 +485,7 @@ def valid_case(item):
             if k in (1, 2, 3):
                 return len(s) == 2 and _utf8(s[1]) and len(s[1]) > 0 and s[1][0] != 47
             if k == 5:
-                return len(s) == 2 and 1 <= len(s[1]) <= 6 and all(seg_ok(x) for x in s[1])
+                return len(s) == 2 and 1 <= len(s[1]) <= 12 and all(seg_ok(x) for x in s[1])
             return False
 
         def route_ok(r):
@@ -492,9 +493,9 @@ def valid_case(item):
                 return False
             if r[1] == 0:
                 return len(r) == 2
-            return r[1] == 1 and len(r) == 3 and 1 <= len(r[2]) <= 6 and all(route_ok(x) for x in r[2])
+            return r[1] in (1, 2) and len(r) == 3 and 1 <= len(r[2]) <= 12 and all(route_ok(x) for x in r[2])
 
-        if not (1 <= len(routes) <= 6 and all(route_ok(r) for r in routes)):
+        if not (1 <= len(routes) <= 12 and all(route_ok(r) for r in routes)):
             return False
         for segs in leaf_seglists(routes):
             real = [x for x in segs if x[0] != 4]
@@ -564,6 +565,8 @@ def gen_seg(rng, depth, wild_ok):
     if depth <= 0 or r < 0.35:
         return gen_leaf(rng, wild_ok)
     n = rng.choice([1, 2, 2, 2, 2, 3, 3, 3, 4, 5, 6]) if rng.random() < 0.25 else rng.choice([1, 2, 2, 3])
+    if rng.random() < 0.03:
+        n = rng.randint(7, 12)
     items = []
     for i in range(n):
         last = i == n - 1
@@ -605,12 +608,15 @@ def gen_route(rng, depth, budget):
         if rng.random() < 0.5 and seg_optional(C.norm(seg)):
             seg = gen_plain_leaf(rng)
         n = rng.choice([1, 1, 2, 2, 3, 4])
+        if rng.random() < 0.04:
+            n = rng.randint(7, 10)
+            budget[0] += n
         kids = []
         for _ in range(n):
             if budget[0] <= 0 and kids:
                 break
             kids.append(gen_route(rng, depth - 1, budget))
-        return R(seg, kids)
+        return R(seg, kids, vec=rng.random() < 0.2)
     if rng.random() < 0.3:
         return R(gen_opt_tail(rng))
     return R(gen_seg(rng, 2, True))
@@ -619,6 +625,9 @@ def gen_route(rng, depth, budget):
 def gen_routes(rng):
     budget = [rng.choice([1, 2, 3, 4, 6, 8])]
     n = rng.choice([1, 1, 2, 2, 3, 4])
+    if rng.random() < 0.04:
+        n = rng.randint(7, 12)
+        budget[0] = n + 2
     out = []
     for _ in range(n):
         if budget[0] <= 0 and out:
@@ -741,6 +750,10 @@ FIXED = [
     [R(S("a"), [R(O("x")), R(T(S("b"), O("y")))]), R(T(P("z"), O("x"), O("y")))],
     [R(S(""), [R(T(O("x"),)), R(S("a"))])],
     [R(T(T(S("a"), P("x")), O("y"))), R(T(S("a"), S("b"), O("y"), O("z")))],
+    # arities beyond 6 (9-tuple of segments, 8 siblings) and StaticVec children
+    [R(T(S("a"), U, S("b"), P("x"), U, S("a"), S(""), P("y"), O("z"))),
+     R(S("b")), R(S("ab")), R(T(S("a"), S("a"))), R(P("x")), R(T(S("b"), P("y"))), R(S("")), R(W("w"))],
+    [R(S("a"), [R(S("")), R(S("b")), R(P("x"), [R(S("a")), R(O("y"))], vec=True)], vec=True), R(W("w"))],
 ]
 
 
@@ -786,13 +799,14 @@ def _generate(rng, tier):
         routes = gen_routes(rng)
         base = rng.choice(BASES)
         nb = [C.norm(base)] if base is not None else []
+        tail = [1] if rng.random() < 0.15 else []
         for p, built in targeted(rng, base, routes, 14):
-            yield dict(case=[0, nb, routes, p], kind="built" if built else "targeted")
+            yield dict(case=[0, nb, routes, p] + tail, kind="built" if built else "targeted")
         for _ in range(6):
             p = rng.choice(short)
             if base and rng.random() < 0.8:
                 p = C.norm(base) + p
-            yield dict(case=[0, nb, routes, p], kind="random")
+            yield dict(case=[0, nb, routes, p] + tail, kind="random")
     # 3. arbitrary strings as paths (no leading '/'): correspondence only
     for _ in range(2000 if quick else 20000):
         routes = gen_routes(rng)
@@ -800,11 +814,49 @@ def _generate(rng, tier):
         yield dict(case=[0, [], routes, p], kind="raw-path")
 
 
+def _shape_stats(case):
+    big = vec = False
+    if len(case) > 4 and case[4] == 1:
+        vec = True
+    if len(case[2]) > 6:
+        big = True
+
+    def seg(s):
+        nonlocal big
+        if s[0] == 5:
+            if len(s[1]) > 6:
+                big = True
+            for x in s[1]:
+                seg(x)
+
+    def route(r):
+        nonlocal big, vec
+        seg(r[0])
+        if r[1]:
+            if r[1] == 2:
+                vec = True
+            if len(r[2]) > 6:
+                big = True
+            for c in r[2]:
+                route(c)
+
+    for r in case[2]:
+        route(r)
+    return big, vec
+
+
 def coverage_extra(results):
     n = bad = inst = inst_bad = 0
+    n_big = n_vec = n_opt_inside = 0
     examples = []
     for r in results:
         it = r["item"]
+        if it.get("kind") not in ("ref-xcheck", "raw-path"):
+            big, vec = _shape_stats(it["case"])
+            n_big += big
+            n_vec += vec
+            if it.get("known") is None and any(s[0] == 2 for s in tree_leaf_segs(it["case"][2])):
+                n_opt_inside += 1
         if it.get("kind") != "ref-xcheck" or isinstance(r["impl"], str) or isinstance(r["model"], str):
             continue
         n += 1
@@ -821,6 +873,8 @@ def coverage_extra(results):
             inst += 1
             if m[0] != m[1] or impl[3] == [-1]:
                 inst_bad += 1
-    return dict(reference_crosscheck_cases=n, reference_python_vs_coq_disagreements=bad,
+    return dict(cases_with_arity_above_6=n_big, cases_with_static_vec_children=n_vec,
+                cases_with_optionals_outside_known_classes=n_opt_inside,
+                reference_crosscheck_cases=n, reference_python_vs_coq_disagreements=bad,
                 reference_disagreement_examples=examples,
                 theorem_instances_outside_known_classes=inst, theorem_instances_violated=inst_bad)
